@@ -39,6 +39,16 @@ func (Engine) Generate(r *core.Rng, property, tier string) *core.Plan {
 			p.SetKnob("ccwindow", int64([]int{0, 1, 1, 2, 3, 5, 8, 30}[r.Intn(8)]))
 		}
 	}
+	if property == "C30" || property == "C12" && r.Bool(0.25) {
+		// the CRC-only DPoS era starts inside the run, so the state records a
+		// last irreversible height a few blocks later
+		// (the tracking start stays >= 7: the code computes height-6 there, and
+		// real networks start it hundreds of thousands of blocks up)
+		cr := 2 + int64(r.Intn(6))
+		p.SetKnob("crconly", cr)
+		// and strictly above the CRC-only height, as on every real network
+		p.SetKnob("revertpowoff", max(1, 7-cr)+int64(r.Intn(3)))
+	}
 	n := r.Range(12, 45)
 	if tier == "thorough" {
 		n = r.Range(12, 80)
@@ -287,8 +297,30 @@ func (g *gen) orphanFamily() {
 	g.p.Add(Step{Op: "deliver", Ref: -1}) // P (the block held last) arrives
 }
 
+// deepFork: a branch forking 1..9 blocks below the tip and grown until it is
+// heavier than the active chain (C30: across the last irreversible height).
+func (g *gen) deepFork() {
+	r := g.r
+	d := r.Range(1, 9)
+	small := func(pm, parent int) Step {
+		b := &BlockSpec{Miner: r.Intn(10), Dt: r.Intn(200), PMode: pm, Parent: parent}
+		if r.Bool(0.3) {
+			b.Txs = append(b.Txs, g.goodTx())
+		}
+		return Step{Op: "mine", Block: b}
+	}
+	g.p.Add(small(2, d))
+	for k := d + r.Range(0, 2); k > 0; k-- {
+		g.p.Add(small(4, 0))
+	}
+}
+
 func (g *gen) step() {
 	r := g.r
+	if (g.prop == "C30" || g.prop == "C12" && g.p.Knob("crconly", 0) > 0) && r.Bool(0.12) {
+		g.deepFork()
+		return
+	}
 	if g.on["reorder"] && r.Bool(0.06) {
 		g.orphanFamily()
 		return
